@@ -87,13 +87,16 @@ class _Run:
 
         cfg = self.scen["config"]
         inner = build_inner(cfg["inner"])
-        sc = urwid.Scrollable(inner)
+        sc = urwid.Scrollable(inner, force_forward_keypress=bool(cfg.get("ffk", False)))
         bar = None
         top = sc
         bw = 0
+        self.thumb, self.trough = THUMB, " "
         if cfg.get("bar"):
             bw = cfg["bar"].get("width", 1)
-            bar = urwid.ScrollBar(sc, side=cfg["bar"].get("side", "right"), width=bw)
+            self.thumb = cfg["bar"].get("thumb", THUMB)
+            self.trough = cfg["bar"].get("trough", " ")
+            bar = urwid.ScrollBar(sc, thumb_char=self.thumb, trough_char=self.trough, side=cfg["bar"].get("side", "right"), width=bw)
             top = bar
         self.sc, self.inner, self.bar, self.top, self.bw = sc, inner, bar, top, bw
         return top
@@ -371,7 +374,7 @@ class _Run:
                 else:
                     bar_col = [t[:bw] for t in texts]
                     texts = [t[bw:] for t in texts]
-            elif any(THUMB in t for t in texts) and THUMB not in "".join(row_text(r) for r in F):
+            elif any(self.thumb in t for t in texts) and self.thumb not in "".join(row_text(r) for r in F):
                 self.violate("C20.2", "scrollbar-drawn-although-content-fits", f"step {i} size {size} total {total}")
                 return None
             view_texts = texts
@@ -419,12 +422,12 @@ class _Run:
                 if any(len(c) != bw for c in bar_col):
                     self.violate("C20.2", "scrollbar-width-wrong", f"step {i}: {bar_col!r}")
                     return None
-                first = col.find(THUMB)
-                lastt = col.rfind(THUMB)
+                first = col.find(self.thumb)
+                lastt = col.rfind(self.thumb)
                 if first < 0:
                     self.violate("C20.2", "scrollbar-has-no-thumb", f"step {i} size {size}: {col!r}")
                     return None
-                if set(col[first : lastt + 1]) != {THUMB} or set(col[:first] + col[lastt + 1 :]) - {" "}:
+                if set(col[first : lastt + 1]) != {self.thumb} or set(col[:first] + col[lastt + 1 :]) - {self.trough}:
                     self.violate("C20.2", "scrollbar-thumb-not-contiguous", f"step {i}: {col!r}")
                     return None
                 top_h, thumb_h, bot_h = first, lastt - first + 1, len(col) - lastt - 1
@@ -688,8 +691,12 @@ class ScrollEngine(Engine):
             inner = {"k": "fixed", "rows": rng.randint(1, 20), "cols": rng.randint(1, 25)}
         size = [rng.choice([1, 2, 5, 10, 20]), rng.choice([1, 2, 4, 7, 10])]
         cfg = {"inner": inner, "size": size}
+        if rng.random() < 0.3:
+            cfg["ffk"] = True  # force_forward_keypress: keys go to the wrapped widget before the first render knows it is selectable
         if rng.random() < 0.5:
             cfg["bar"] = {"side": rng.choice(["left", "right"]), "width": rng.choice([1, 1, 2])}
+            if rng.random() < 0.3:
+                cfg["bar"].update(thumb=rng.choice(["#", "@"]), trough=rng.choice([" ", ".", "|"]))
         ops = [{"op": "render"}] if rng.random() < 0.8 else []
         for _ in range(rng.randint(1, 30)):
             q = rng.random()
